@@ -18,6 +18,7 @@ from ..worlds import relay, store
 ID = "C05"
 LEVEL = "exploration"
 CHUNK = 40
+CHUNK_DEADLINE = 600       # (long flavours: crowds, soaks, wide events; shared machines)
 BUDGET = {"quick": {"runs": 4000, "wall": 150}, "thorough": {"runs": 100000, "wall": 1200}}
 RULE = ("2-5 connections x scripts of 2-12 frames over REQ (1-3 well-formed filters aimed at the event "
         "pool, fresh and reused ids), CLOSE, EVENT (distinct pool events incl. replaceable, ephemeral, "
